@@ -23,7 +23,7 @@ SPEC = dict(
         "(plus the vmap-hostile variants for k=1 / m=1); state = (m, k, recorded sweep widths); non-trivial = distinct (case, k) "
         "with 1 < k < m and m mod k != 0 (a remainder sweep exists)"
     ),
-    bound=dict(quick="all (m,k), m<=12, k in {None,1..m+2}; 6 backward shapes + mtl; retain_graph in {F,T}", thorough="m <= 16"),
+    bound=dict(quick="all (m,k), m<=12, k in {None,1..m+2}; 6 backward shapes + mtl; retain_graph in {F,T}", thorough="m <= 24"),
     assumptions=["programs limited to the shapes in this file", "sweeps observed through tensor hooks and torch._C._functorch introspection"],
 )
 
@@ -31,7 +31,7 @@ SHAPES = ("one", "two", "three", "nonlin", "scalars", "mixed2d")
 
 
 def gen_cases(tier, seed):
-    M = 12 if tier == "quick" else 16
+    M = 12 if tier == "quick" else 24
     cases = []
     for m in range(1, M + 1):
         for rg in (False, True):
